@@ -38,4 +38,17 @@ TEXT["C05"] = dict(engine="verus+kani",
    note="Assumed: vstd std specs, stubs listed in evidence.assumptions (String::from_utf8, from_be_bytes wrappers, HashMap<DhcpOption,_> as a map, format! text dropped). "
         "Not decided: process-level liveness after hostile input; decoders not listed in functions_under_contract.")
 
+TEXT["C03"] = dict(engine="verus",
+   technique="Verus postcondition on the real DnsListenerHandler::create_in_reply (all sections, any number of records)",
+   level="Unbounded deductive proof that the reply assembled for the client has the client's id and question, QR set, the upstream rcode and exactly the upstream "
+         "answer/authority/additional sequences (whole-sequence equality, so nothing is invented, dropped, reordered or moved between sections).",
+   note="Assumed: derived Clone is structural (R12). TTL ageing is C06; byte-level parse/serialise faithfulness is C14 (partly undecided); create_outquery / id matching in outquery.rs not yet under contract.")
+TEXT["C04"] = dict(engine="verus",
+   technique="Verus contract on DNSPkt::serialise_with_size (loop invariants over the three section loops) + emission-point preconditions on the UDP send stub",
+   level="Unbounded deductive proof, for every message and every size limit >= 512: length <= size unless no record is kept, header counts are the numbers of records kept "
+         "(prefix of answer++authority++additional, >= 11 octets each), TC bit <=> a record was omitted (or tc was set), other flag bits preserved; the UDP reply path (slice of run_udp) "
+         "can only hand send_msg a buffer within max(512, advertised size); decoder floors the advertised size at 512.",
+   note="Assumed: push_compressed_domain append-only contract (LinkedList dictionary outside Verus; Kani-bounded), section lengths fit 16-bit counts, Vec::splice exact semantics (R11). "
+        "Not decided: that each kept record re-parses as one record (C14), question longer than the limit (never truncated by the encoder), TCP path length prefix.")
+
 NA = {}
